@@ -1,5 +1,6 @@
 import Srctools.Proofs.C14
 import Srctools.Proofs.C14Kv1
+import Srctools.Proofs.C14Iso
 import Srctools.Gen.Dmx
 import Srctools.Model.C14Kv2
 import Srctools.Props.C02
@@ -122,6 +123,41 @@ theorem C14_graph_current (c : Cfg) (g : Graph) (hg : graphOK Gen.Dmx.tables c g
     decodeBin Gen.Dmx.tables c (encodeBin Gen.Dmx.tables c g) = .ok g :=
   C14_graph _ C14_gen_codes C14_gen_layout c g hg
 
+/-! ## (vi) numbering a heap graph (`C14_iso`) and the composition export → parse -/
+
+/-- **Numbering.** For a heap graph without dangling references, the traversal of `export_binary`
+/ `export_kv2` (`number`) lists every location reachable from the root exactly once (no location
+twice: one index per element; position = index, so indices are dense `0 … n-1`), starts with the
+root, and lists nothing unreachable (unreachable elements are not exported). -/
+theorem C14_iso_numbering (h : Graph) (hc : heapClosed h = true) (root : Nat)
+    (hr : root < h.elems.length) : Numbering h root (number h root) :=
+  number_numbering h hc root hr
+
+/-- **Isomorphism.** The indexed graph that is written is the heap graph seen from the root,
+renumbered: element `i` is the element at location `ord[i]` with each element reference replaced
+by the index of its target, that index leads back to the target's location (sharing and cycles are
+kept: two references to one location get the same index), NULL / stub references and everything
+else are unchanged. -/
+theorem C14_iso (h : Graph) (hc : heapClosed h = true) (root : Nat) (hr : root < h.elems.length) :
+    Iso h root (indexed h root) :=
+  indexed_iso h hc root hr
+
+/-- Every element reference of the indexed graph is a valid index (the reference part of `graphOK`). -/
+theorem C14_iso_refs_in_range (h : Graph) (hc : heapClosed h = true) (root : Nat)
+    (hr : root < h.elems.length) (e : Elem) (he : e ∈ (indexed h root).elems) (k : Nat)
+    (hk : k ∈ e.refs) : k < (indexed h root).elems.length :=
+  indexed_refs_lt h hc root hr e he k hk
+
+/-- **Export → parse (binary), from the heap graph.** Numbering the heap graph, writing it and
+parsing the bytes gives a graph isomorphic to the source (`C14_graph ∘ C14_iso`). `graphOK` of the
+numbered graph is about the *values* (strings without NUL, ints in range, table fits, …): its
+reference part is `C14_iso_refs_in_range`. -/
+theorem C14_export_parse_iso (T : Tables) (hT : codesOK T = true) (hL : layoutOK T = true) (c : Cfg)
+    (h : Graph) (hc : heapClosed h = true) (root : Nat) (hr : root < h.elems.length)
+    (hg : graphOK T c (indexed h root) = true) :
+    ∃ g, decodeBin T c (encodeBin T c (indexed h root)) = .ok g ∧ Iso h root g :=
+  ⟨indexed h root, C14_graph T hT hL c _ hg, C14_iso h hc root hr⟩
+
 /-! ## (v) KeyValues1 bridge -/
 
 /-- **KV1 bridge.** `to_kv1(from_kv1(t)) = t` for every Keyvalues tree whose roots are only at the
@@ -187,6 +223,20 @@ example : C14_isOk (decodeBin { Gen.Dmx.tables with stubWrite := .none } { v := 
     C14_sample = false := by decide +kernel
 
 example : codesOK { Gen.Dmx.tables with decodeCmp := .ge } = false := by decide
+
+/-- a heap in scrambled order with an unreachable element (location 1), a cycle 0 → 2 → 3 → 0,
+sharing (3 referenced twice), a self loop, NULL and a stub. -/
+def C14_heapSample : Graph :=
+  let u : Bytes := List.replicate 36 48
+  let el (n : UInt8) (refs : List Val) : Elem :=
+    { type := [68], name := [n], uuid := List.replicate 16 n,
+      attrs := [{ name := [114], type := .element, isArray := true, vals := refs }] }
+  { elems := [el 0 [.ref (.idx 2), .ref .null, .ref (.idx 3)], el 1 [.ref (.idx 0)],
+              el 2 [.ref (.idx 3), .ref (.stub u), .ref (.idx 2)], el 3 [.ref (.idx 0)]] }
+
+example : heapClosed C14_heapSample = true := by decide +kernel
+example : number C14_heapSample 0 = [0, 2, 3] := by decide +kernel
+example : ((indexed C14_heapSample 0).elems.map Elem.refs) = [[1, 2], [2, 1], [0]] := by decide +kernel
 
 def C14_kvSample : KV :=
   .block none [.block (some ['a']) [.leaf ['x'] ['1'], .leaf ['X'] ['2']],
